@@ -254,9 +254,9 @@ fn main() {
     for id in 0..args.n {
         let mut cr = r.fork();
         if id % 5 == 4 {
-            tree_case(&mut cr, id, &mut out);
+            guard(id, &mut out, |out| tree_case(&mut cr, id, out));
         } else {
-            matrix_case(&mut cr, id, &mut out);
+            guard(id, &mut out, |out| matrix_case(&mut cr, id, out));
         }
         if out.len() > 1 << 20 {
             print!("{}", out);
